@@ -182,16 +182,18 @@ func (denyPrefixACL) CanAppend(e accesscontroller.LogEntry, _ idp.Interface, _ a
 }
 
 type World struct {
-	DenyPrefix bool
-	Seed   int64
-	Ctx    context.Context
-	Store  *store.Store
-	KS     *DetKS
-	Idents []*idp.Identity
-	LogID  string
-	Order  string
-	Codec  string
-	io     iface.IO
+	ReuseOptions bool // loaders get one reused LogOptions value (a caller keeping its options around)
+	sharedOpts   *ipfslog.LogOptions
+	DenyPrefix   bool
+	Seed         int64
+	Ctx          context.Context
+	Store        *store.Store
+	KS           *DetKS
+	Idents       []*idp.Identity
+	LogID        string
+	Order        string
+	Codec        string
+	io           iface.IO
 }
 
 func NewWorld(seed int64, nIdents int, logID, order, codec string) *World {
@@ -291,6 +293,24 @@ func ContentDigest(e iface.IPFSLogEntry) string {
 	return hex.EncodeToString(h.Sum(nil))[:20]
 }
 
+// ObjectDigest additionally covers the in-memory side data (the encrypted links an entry created in memory
+// carries). Two objects for the same hash may legitimately differ in it (created vs decoded), so it is only
+// compared for ONE object over time.
+func ObjectDigest(e iface.IPFSLogEntry) string {
+	h := sha256.New()
+	h.Write([]byte(ContentDigest(e)))
+	ad := e.GetAdditionalData()
+	keys := make([]string, 0, len(ad))
+	for k := range ad {
+		keys = append(keys, k)
+	}
+	sort.Strings(keys)
+	for _, k := range keys {
+		fmt.Fprintf(h, "|%s=%s", k, ad[k])
+	}
+	return hex.EncodeToString(h.Sum(nil))[:20]
+}
+
 func Hashes(es []iface.IPFSLogEntry) []string {
 	out := make([]string, len(es))
 	for i, e := range es {
@@ -305,7 +325,8 @@ func Hashes(es []iface.IPFSLogEntry) []string {
 
 // Obs is what one observation of a log through its public API yields.
 type Obs struct {
-	NilEntries int // nil values handed out by GetEntries()/Values()/Heads() (a corrupted index)
+	Objs       map[iface.IPFSLogEntry]string // entry object -> ObjectDigest (in-place mutation of one object)
+	NilEntries int                           // nil values handed out by GetEntries()/Values()/Heads() (a corrupted index)
 	ID         string
 	Set        model.Set
 	Heads      []string
@@ -318,13 +339,14 @@ type Obs struct {
 }
 
 func Observe(l *ipfslog.IPFSLog) *Obs {
-	o := &Obs{ID: l.GetID(), Set: model.Set{}}
+	o := &Obs{ID: l.GetID(), Set: model.Set{}, Objs: map[iface.IPFSLogEntry]string{}}
 	for _, e := range l.GetEntries().Slice() {
 		if e == nil {
 			o.NilEntries++
 			continue
 		}
 		o.Set[e.GetHash().String()] = ToModel(e)
+		o.Objs[e] = ObjectDigest(e)
 	}
 	o.Heads = Hashes(l.Heads().Slice())
 	o.RawHeads = Hashes(l.RawHeads().Slice())
